@@ -21,7 +21,7 @@ import translate_kwargs
 from common import ModelErr, b2fs, fs2b
 
 PROP = "C18"
-CLAIMED = False
+CLAIMED = True
 ENGINE = "Wrap"
 DESIGN_REF = "DESIGN.md §5.11"
 TECHNIQUE = (
